@@ -16,7 +16,7 @@ From Coq Require Import List ZArith NArith Bool Arith.
 Import ListNotations.
 From DD Require Import Base.PyStr Base.Value Diff.Tree Diff.DiffModel Path.PathModel
   Filter.FilterModel Filter.FilterProofs Filter.FilterExclude Filter.FilterThreshold Filter.FilterInclude
-  Filter.FilterWitness Filter.FilterIndep.
+  Filter.FilterWitness Filter.FilterIndep Filter.FilterHash.
 
 (** ** Exclusion: literal (P = membership of the rendered path in exclude_paths) or by regex (P arbitrary) *)
 
@@ -129,25 +129,28 @@ Print Assumptions C13_exclude_default_index_refuted.
 
 (** ** "Content under an excluded path never causes or suppresses an entry elsewhere"
 
-    [prune P [] t] replaces every sub-value of t at a skipped position by None (dict keys and list lengths
-    stay).  Positional mode, EVERY threshold, dictionary keys without ==-aliases of another type (no bool /
-    float keys): two input pairs that agree outside the skipped positions get the same filtered entries
-    (kind and both paths; the values shown for an entry ABOVE a skipped position naturally contain it). *)
+    [prune false P [] t] replaces every sub-value of t at a skipped position by None (dict keys and list
+    lengths stay); [prune true P [] t] moreover deletes the dictionary items at skipped positions.
+    Dictionary keys without ==-aliases of another type (no bool / float keys); positional mode, or the
+    default alignment mode when no skipped path ends in a sequence index: two input pairs that agree outside
+    the skipped positions get the same filtered entries (kind and both paths; the values shown for an entry
+    ABOVE a skipped position naturally contain it) - at EVERY threshold when the skipped keys are present in
+    both pairs alike, at threshold 0 also when skipped dictionary items are added or removed altogether. *)
 Theorem C13_exclude_independent_partial :
-  forall hatom udiff ops (P E : path -> bool) (c : cfg) (t1 t2 t1' t2' : value),
-  zip c = true ->
+  forall hatom udiff ops (P E : path -> bool) (c : cfg) (del : bool) (t1 t2 t1' t2' : value),
+  zip c = true \/ idx_closed P -> del = false \/ thr_num c = 0 ->
   keys_all key_plain t1 = true -> keys_all key_plain t2 = true ->
   keys_all key_plain t1' = true -> keys_all key_plain t2' = true ->
-  prune P [] t1 = prune P [] t1' -> prune P [] t2 = prune P [] t2' ->
+  prune del P [] t1 = prune del P [] t1' -> prune del P [] t2 = prune del P [] t2' ->
   map proj (fst (run_diff hatom udiff ops P E c t1 t2)) = map proj (fst (run_diff hatom udiff ops P E c t1' t2')).
-Proof. intros. apply exclude_agree; assumption. Qed.
+Proof. intros. eapply exclude_agree; eassumption. Qed.
 Print Assumptions C13_exclude_independent_partial.
 
 (** without the key guard it fails: 1 == True is ONE dictionary key and the level path takes t2's spelling,
     so excluding root[1] does not cover what t1 holds under its key 1 *)
 Theorem C13_exclude_independent_alias_refuted :
   exists hatom udiff ops (P E : path -> bool) (c : cfg) (t1 t1' t2 : value),
-  zip c = true /\ prune P [] t1 = prune P [] t1' /\
+  zip c = true /\ prune false P [] t1 = prune false P [] t1' /\
   map proj (fst (run_diff hatom udiff ops P E c t1 t2)) <> map proj (fst (run_diff hatom udiff ops P E c t1' t2)).
 Proof.
   exists w8_h, w8_u, w8_o, w8_P, no_skip, w8_c, w8_t1, w8_t1', w8_t2.
@@ -155,6 +158,29 @@ Proof.
   split; [reflexivity|split; [exact A|]]. rewrite B, C. discriminate.
 Qed.
 Print Assumptions C13_exclude_independent_alias_refuted.
+
+(** ** The DeepHash side (sets): [run_filtered_h] also applies the two exclusion options to the pseudo-path
+    "<set path>[i]" of every member of two compared sets, as _create_hashtable / DeepHash._skip_this do *)
+
+(** when no such pseudo-path is hit it is the run all the theorems above speak about *)
+Theorem C13_set_member_no_hit :
+  forall hatom udiff ops (rx : path -> bool) (rxh : path -> nat -> bool) (ex inc : list pystr) (c : cfg) (t1 t2 : value),
+  (forall p i, hit_this rxh (add_root_to_paths ex) p i = false) ->
+  run_filtered_h hatom udiff ops rx rxh ex inc c t1 t2 = run_filtered hatom udiff ops rx ex inc c t1 t2.
+Proof. exact run_filtered_h_no_hit. Qed.
+Print Assumptions C13_set_member_no_hit.
+
+(** K13c: a pattern that matches no level path at all but the pseudo-path root[0] (r'\[0\]$' on two sets
+    at the root): the unrestricted run reports an entry that the "filtered" run loses *)
+Theorem C13_set_member_index_refuted :
+  exists hatom udiff ops (rxh : path -> nat -> bool) (c : cfg) (t1 t2 : value) (e : entry),
+  In e (fst (run_diff hatom udiff ops no_skip no_skip c t1 t2)) /\
+  ~ In e (fst (run_filtered_h hatom udiff ops no_skip rxh [] [] c t1 t2)).
+Proof.
+  exists wh_h, wh_u, wh_o, wh_rxh, wh_c, wh_t1, wh_t2, (mkEntry KSetRem [] [] (Some (VAtom (AInt 1))) None None).
+  split; [vm_compute; right; left; reflexivity|]. intros H. vm_compute in H. destruct H as [H|[]]. discriminate H.
+Qed.
+Print Assumptions C13_set_member_index_refuted.
 
 (** ** Inclusion *)
 
